@@ -40,3 +40,75 @@ package analysis
 //@ loop #2
 //@   invariant [so_far] forall j int :: {ranged()[j]} 0 <= j && j <= rangeindex ==> has(nodes, ranged()[j]) && ranged()[j] != labelOf(node)
 //@   invariant [graph_maps] graph.outEdges != nil && graph.inEdges != nil && graph.outEdges != graph.inEdges && graph.nodes == nodes
+
+// C11: "two targets with no dependency ordering between them whose outputs overlap (nested directories, a file inside a
+// directory output)". ordered(g, a, b): one is a transitive dependency of the other.
+//@ func getAncestorSet(graph, node, cache) (set)
+//@   trusted
+//@   requires [graph] graphWF(graph) && isNode(node) && nodeAt(graph, labelOf(node)) == node && cache != nil
+//@   modifies contents(cache)
+//@   ensures [is_reach_set] set != nil && (forall x model.BuildNode :: {reach(graph, x, node)} isNode(x) && has(graph.nodes, labelOf(x)) && nodeAt(graph, labelOf(x)) == x ==> (has(set, labelOf(x)) <==> reach(graph, x, node)))
+
+//@ func targetsAreOrdered(graph, a, b, ancestorCache) (r)
+//@   requires [graph] graphWF(graph) && isNode(a) && isNode(b) && has(graph.nodes, labelOf(a)) && has(graph.nodes, labelOf(b)) && nodeAt(graph, labelOf(a)) == a && nodeAt(graph, labelOf(b)) == b
+//@   modifies contents(ancestorCache)
+//@   ensures [iff_ordered] r <==> reach(graph, b, a) || reach(graph, a, b)
+
+// the conflict list grows by one per reported conflict
+//@ func detectOutputConflicts$1(message) ()
+//@   modifies conflicts
+//@   ensures [one_more] len(conflicts) == old(len(conflicts)) + 1
+
+// Rejection direction for the two path-overlap classes: if no error is returned, every pair of directory outputs of
+// unordered targets is disjoint at component boundaries, and no file output of a target lies inside a directory output of
+// a target it is not ordered with. dirOutputs / fileOutputs are the function's own collections (see [collected]).
+//@ func detectOutputConflicts(graph) (err)
+//@   requires [graph] graphWF(graph)
+//@   ensures [nested_directories_rejected] err == nil ==> (forall a int, b int :: {dirOutputs[a], dirOutputs[b]} 0 <= a && a < b && b < len(dirOutputs) ==>
+//@        orderedT(graph, dirOutputs[a].target, dirOutputs[b].target) ||
+//@        !(dirOutputs[a].path == dirOutputs[b].path || hasPrefix(dirOutputs[a].path, dirOutputs[b].path + "/") || hasPrefix(dirOutputs[b].path, dirOutputs[a].path + "/")))
+//@   ensures [file_inside_directory_rejected] err == nil ==> (forall a int, k int :: {dirOutputs[a], fileOutputs[k]} 0 <= a && a < len(dirOutputs) && 0 <= k && k < len(fileOutputs) ==>
+//@        orderedT(graph, dirOutputs[a].target, fileOutputs[k].target) ||
+//@        !(fileOutputs[k].path == dirOutputs[a].path || hasPrefix(fileOutputs[k].path, dirOutputs[a].path + "/")))
+//@ loop #1
+//@   invariant [records_are_nodes] (forall j int :: {dirOutputs[j]} 0 <= j && j < len(dirOutputs) ==> recOK(graph, dirOutputs[j].target)) &&
+//@        (forall j int :: {fileOutputs[j]} 0 <= j && j < len(fileOutputs) ==> recOK(graph, fileOutputs[j].target))
+//@   invariant [docker_records_are_nodes] forall t string, q int :: {dockerOutputs[t][q]} has(dockerOutputs, t) && 0 <= q && q < len(dockerOutputs[t]) ==> recOK(graph, dockerOutputs[t][q].target)
+//@ loop #2
+//@   invariant [docker_records_are_nodes] forall t string, q int :: {dockerOutputs[t][q]} has(dockerOutputs, t) && 0 <= q && q < len(dockerOutputs[t]) ==> recOK(graph, dockerOutputs[t][q].target)
+//@   invariant [records_are_nodes] (forall j int :: {dirOutputs[j]} 0 <= j && j < len(dirOutputs) ==> recOK(graph, dirOutputs[j].target)) &&
+//@        (forall j int :: {fileOutputs[j]} 0 <= j && j < len(fileOutputs) ==> recOK(graph, fileOutputs[j].target))
+//@   invariant [current_target_is_node] recOK(graph, target)
+//@ loop #3
+//@   invariant [docker_records_are_nodes] forall t string, q int :: {dockerOutputs[t][q]} has(dockerOutputs, t) && 0 <= q && q < len(dockerOutputs[t]) ==> recOK(graph, dockerOutputs[t][q].target)
+//@ loop #4
+//@   invariant [index] i#1 >= 0 && (forall q int :: {records#1[q]} 0 <= q && q < len(records#1) ==> recOK(graph, records#1[q].target))
+//@ loop #5
+//@   invariant [index] i#1 >= 0 && i#1 < len(records#1) && j#1 > i#1 && (forall q int :: {records#1[q]} 0 <= q && q < len(records#1) ==> recOK(graph, records#1[q].target))
+//@ loop #6
+//@   invariant [file_map_records_are_nodes] forall t string, q int :: {fileMap[t][q]} has(fileMap, t) && 0 <= q && q < len(fileMap[t]) ==> recOK(graph, fileMap[t][q].target)
+//@ loop #7
+//@   invariant [file_map_records_are_nodes] forall t string, q int :: {fileMap[t][q]} has(fileMap, t) && 0 <= q && q < len(fileMap[t]) ==> recOK(graph, fileMap[t][q].target)
+//@ loop #8
+//@   invariant [index] i#2 >= 0 && (forall q int :: {records#2[q]} 0 <= q && q < len(records#2) ==> recOK(graph, records#2[q].target))
+//@ loop #9
+//@   invariant [index] i#2 >= 0 && i#2 < len(records#2) && j#2 > i#2 && (forall q int :: {records#2[q]} 0 <= q && q < len(records#2) ==> recOK(graph, records#2[q].target))
+//@ loop #10
+//@   invariant [rows_done] i#3 >= 0 && (len(conflicts) == 0 ==> (forall a int, b int :: {dirOutputs[a], dirOutputs[b]} 0 <= a && a < i#3 && a < b && b < len(dirOutputs) ==>
+//@        orderedT(graph, dirOutputs[a].target, dirOutputs[b].target) ||
+//@        !(dirOutputs[a].path == dirOutputs[b].path || hasPrefix(dirOutputs[a].path, dirOutputs[b].path + "/") || hasPrefix(dirOutputs[b].path, dirOutputs[a].path + "/"))))
+//@ loop #11
+//@   invariant [rows_done] i#3 >= 0 && i#3 < len(dirOutputs) && j#3 > i#3 && (len(conflicts) == 0 ==> (forall a int, b int :: {dirOutputs[a], dirOutputs[b]} 0 <= a && a < i#3 && a < b && b < len(dirOutputs) ==>
+//@        orderedT(graph, dirOutputs[a].target, dirOutputs[b].target) ||
+//@        !(dirOutputs[a].path == dirOutputs[b].path || hasPrefix(dirOutputs[a].path, dirOutputs[b].path + "/") || hasPrefix(dirOutputs[b].path, dirOutputs[a].path + "/"))))
+//@   invariant [row_so_far] len(conflicts) == 0 ==> (forall b int :: {dirOutputs[b]} i#3 < b && b < j#3 && b < len(dirOutputs) ==>
+//@        orderedT(graph, dirOutputs[i#3].target, dirOutputs[b].target) ||
+//@        !(dirOutputs[i#3].path == dirOutputs[b].path || hasPrefix(dirOutputs[i#3].path, dirOutputs[b].path + "/") || hasPrefix(dirOutputs[b].path, dirOutputs[i#3].path + "/")))
+//@ loop #12
+//@   invariant [dirs_done] len(conflicts) == 0 ==> (forall a int, k int :: {dirOutputs[a], fileOutputs[k]} 0 <= a && a <= rangeindex && 0 <= k && k < len(fileOutputs) ==>
+//@        orderedT(graph, dirOutputs[a].target, fileOutputs[k].target) ||
+//@        !(fileOutputs[k].path == dirOutputs[a].path || hasPrefix(fileOutputs[k].path, dirOutputs[a].path + "/")))
+//@ loop #13
+//@   invariant [files_so_far] len(conflicts) == 0 ==> (forall k int :: {fileOutputs[k]} 0 <= k && k <= rangeindex ==>
+//@        orderedT(graph, dirRecord.target, fileOutputs[k].target) ||
+//@        !(fileOutputs[k].path == dirRecord.path || hasPrefix(fileOutputs[k].path, dirRecord.path + "/")))
